@@ -263,7 +263,7 @@ class BlockSeries:
                     raise IndexError("Cannot evaluate infinite series")
                 if order.stop < 0:
                     raise IndexError("Cannot evaluate negative order")
-                if isinstance(order.start, int) and order.start < 0:
+                if order.start is not None and order.start < 0:
                     raise IndexError("Cannot evaluate negative order")
             elif np.min(order, initial=0) < 0:
                 raise IndexError("Cannot evaluate negative order")
